@@ -307,6 +307,10 @@ DETERMINISTIC = [
     {"cls": "AceGroup", "text": "1" * 33 + "\n" + "2" * 29 + " x", "kwargs": {"platform": "nxos"}},
     {"cls": "aces", "text": "ip access-list extended A\n " + "3" * 36 + "\n", "kwargs": {"platform": "ios"}},
     {"cls": "Ace", "text": "permit tcp any any eq " + " ".join(str(i) for i in range(1, 600)), "kwargs": {"platform": "ios"}},
+    {"cls": "Ace", "text": "permit tcp any any eq " + " ".join(str(i) for i in range(1, 3000, 2)) + " log", "kwargs": {"platform": "ios"}},
+    {"cls": "Acl", "text": "ip access-list A\n permit udp any any neq " + " ".join(str(i) for i in range(1, 2500)), "kwargs": {"platform": "nxos"}},
+    {"cls": "aces", "text": "ip access-list extended A\n permit tcp any eq " + " ".join(["www"] * 1800) + " any eq " + " ".join(["22"] * 1800) + "\n",
+     "kwargs": {"platform": "ios"}},
     {"cls": "Acl", "text": "ip access-list extended A\n" + "\n".join(f" permit tcp host 10.0.{i % 250}.1 any eq {i + 1}" for i in range(400)),
      "kwargs": {"platform": "ios"}},
 ]
